@@ -152,8 +152,11 @@ DelegatesWellFormed ==
 
 \* source inventory: a direct reference from the module sources to Go's os, io/ioutil, syscall,
 \* os/user, os/exec (or fmt.Print*) is accepted when it is a constant, a type or an error
-\* sentinel; functions and variables only when whitelisted (nothing is, today)
-RefWhitelist == {}
+\* sentinel; functions and variables only when whitelisted: the functions below compute on
+\* their arguments only (error classification, readers) and touch no operating-system state
+RefWhitelist == {<<"os", "IsNotExist">>, <<"os", "IsExist">>, <<"os", "IsPermission">>, <<"os", "IsTimeout">>,
+                 <<"os", "IsPathSeparator">>, <<"os", "SameFile">>, <<"os", "NewSyscallError">>,
+                 <<"io/ioutil", "NopCloser">>, <<"io/ioutil", "ReadAll">>, <<"io/ioutil", "Discard">>}
 RefAccepted(pkg, ident, kind) == kind \in {"const", "type", "errvar"} \/ <<pkg, ident>> \in RefWhitelist
 
 -----------------------------------------------------------------------------
